@@ -6,9 +6,14 @@ spec -> code : transition tour over C08_HashOrder (live objects, first-observed 
 code -> spec : the full relation table (==, hash equality, <, <=, >, >=) of a universe of values of all seven
                kinds and sorted() outputs, judged by Trace_C08 against the ordering laws.
 """
+import concurrent.futures
+import copy
 import gc
 import itertools
 import json
+import os
+import pickle
+import tempfile
 
 from permuta import Basis, BivincularPatt, CovincularPatt, MeshBasis, MeshPatt, Perm, VincularPatt
 
@@ -21,27 +26,104 @@ def full(k, cols, rows):
     return sorted({(x, y) for x in cols for y in range(k + 1)} | {(x, y) for y in rows for x in range(k + 1)})
 
 
-def V(kind, p, R=(), cols=None, rows=None):
-    return {"kind": kind, "p": tuple(p), "R": tuple(sorted(R)), "cols": cols, "rows": rows}
+def V(kind, p, R=(), cols=None, rows=None, variant=0):
+    return {"kind": kind, "p": tuple(p), "R": tuple(sorted(R)), "cols": cols, "rows": rows, "variant": variant}
 
 
-def make(v):
+def _req(xs, f):
+    """The same list of adjacency requirements in another container form (form f)."""
+    xs = list(xs)
+    return [xs, list(reversed(xs)) + xs[:1], set(xs), (x for x in reversed(xs)), tuple(xs), frozenset(xs)][f % 6]
+
+
+def make(v, variant=None):
+    """Build the value; `variant` (default: the value's own) selects one of several equivalent ways of writing it
+    (container form of the arguments, order, repetitions, copies): the TLA+ Key does not depend on it."""
     k = v["kind"]
+    f = v.get("variant", 0) if variant is None else variant
     if k == "Perm":
-        return Perm(v["p"])
+        p = v["p"]
+        forms = [lambda: Perm(p), lambda: Perm(list(p)), lambda: Perm(x for x in p), lambda: Perm.to_standard([3 * x + 1 for x in p]),
+                 lambda: Perm(Perm(p)), lambda: pickle.loads(pickle.dumps(Perm(p))), lambda: copy.deepcopy(Perm(p)),
+                 lambda: Perm(range(len(p))) if p == tuple(range(len(p))) else Perm(tuple(p))]
+        return forms[f % len(forms)]()
     if k == "MeshPatt":
-        return MeshPatt(Perm(v["p"]), list(v["R"]))
+        P, R = Perm(v["p"]), list(v["R"])
+        forms = [lambda: MeshPatt(P, list(R)), lambda: MeshPatt(P, set(R)), lambda: MeshPatt(P, frozenset(R)),
+                 lambda: MeshPatt(P, (c for c in reversed(R))), lambda: MeshPatt(P, R + R[:2]), lambda: MeshPatt(Perm(list(P)), tuple(reversed(R))),
+                 lambda: MeshPatt(P, R[: len(R) // 2]).shade(*R[len(R) // 2:]) if R else MeshPatt(P),
+                 lambda: pickle.loads(pickle.dumps(MeshPatt(P, R))), lambda: copy.deepcopy(MeshPatt(P, R)),
+                 lambda: MeshPatt.unrank(P, sum(1 << (x * (len(P) + 1) + y) for x, y in R))]
+        return forms[f % len(forms)]()
     if k == "BivincularPatt":
-        return BivincularPatt(Perm(v["p"]), v["cols"], v["rows"])
-    if k == "VincularPatt":
-        return VincularPatt(Perm(v["p"]), v["cols"])
-    if k == "CovincularPatt":
-        return CovincularPatt(Perm(v["p"]), v["rows"])
-    if k == "Basis":
-        return Basis(*[make(e) for e in v["elems"]])
-    if k == "MeshBasis":
-        return MeshBasis(*[make(e) for e in v["elems"]])
-    raise ValueError(k)
+        m = BivincularPatt(Perm(v["p"]), _req(v["cols"], f), _req(v["rows"], f + 1))
+    elif k == "VincularPatt":
+        m = VincularPatt(Perm(v["p"]), _req(v["cols"], f))
+    elif k == "CovincularPatt":
+        m = CovincularPatt(Perm(v["p"]), _req(v["rows"], f))
+    elif k in ("Basis", "MeshBasis"):
+        cls = Basis if k == "Basis" else MeshBasis
+        els = [make(e, f + i) for i, e in enumerate(v["elems"])]
+        forms = [lambda: cls(*els), lambda: cls(*reversed(els)), lambda: cls.from_iterable(iter(els + els[:1])), lambda: cls.from_iterable(set(els)),
+                 lambda: cls(*cls(*els)), lambda: cls.from_iterable(cls(*reversed(els)))]
+        if k == "Basis" and all(0 < len(e["p"]) < 10 for e in v["elems"]):
+            forms.append(lambda: Basis.from_string(" ".join("".join(str(x + 1) for x in e["p"]) for e in v["elems"])))
+        return forms[f % len(forms)]()
+    else:
+        raise ValueError(k)
+    if f % 7 == 5:
+        return pickle.loads(pickle.dumps(m))
+    if f % 7 == 6:
+        return copy.deepcopy(m)
+    return m
+
+
+def foreign_twin(o):
+    """A non-pattern object whose hash collides with the object's, so that a set / dict holding it must compare
+    it with the pattern on lookup (None when no such object is known)."""
+    if isinstance(o, MeshPatt):
+        t = (o.pattern, o.shading)
+    elif isinstance(o, (Basis, MeshBasis)):
+        t = tuple(o)
+    else:
+        return None
+    return t if hash(t) == hash(o) and not (t == o) and not (o == t) else None
+
+
+def clone(o, f):
+    """Copy(i): a new object made from a live one.  (copy / pickle of Basis and MeshBasis do not work in Permuta and are
+    not promised by the property: bases are rebuilt from their elements.)"""
+    if isinstance(o, (Basis, MeshBasis)):
+        return [lambda: type(o)(*o), lambda: type(o).from_iterable(reversed(o)), lambda: type(o)(*o, *o)][f % 3]()
+    forms = [lambda: copy.copy(o), lambda: copy.deepcopy(o), lambda: pickle.loads(pickle.dumps(o))]
+    if isinstance(o, Perm):
+        forms += [lambda: Perm(o), lambda: Perm(list(o)), lambda: Perm(iter(o))]
+    elif isinstance(o, BivincularPatt):
+        forms += [lambda: BivincularPatt(o.pattern, *o.get_adjacent_requirements()), lambda: MeshPatt(o.pattern, set(o.shading))]
+    else:
+        forms += [lambda: MeshPatt(o.pattern, o.shading), lambda: MeshPatt(Perm(tuple(o.pattern)), sorted(o.shading, reverse=True))]
+    return forms[f % len(forms)]()
+
+
+def use(o, others):
+    """Use(i): everything a caller may do with a value between two hash computations."""
+    repr(o), str(o), len(o), bool(o), o == o, o != o
+    for x in others:
+        o == x, x == o, o != x
+        if isinstance(o, Perm) and isinstance(x, Perm) or isinstance(o, MeshPatt) and isinstance(x, MeshPatt):
+            sorted([o, x, o]), o < x, o >= x
+    if not isinstance(o, (Basis, MeshBasis)):          # (copies of bases do not work in Permuta; not part of the property)
+        pickle.dumps(o), copy.copy(o)
+    if isinstance(o, BivincularPatt):
+        o.get_adjacent_requirements()
+    if isinstance(o, MeshPatt):
+        o.pattern, sorted(o.shading), o.rank(), o.complement(), o.contains(o), list(o.occurrences_in(Perm((0, 2, 1, 3))))
+        if len(o) <= 3:
+            o.shadable_boxes()
+    elif isinstance(o, Perm):
+        o.inverse(), o.count_inversions(), list(Perm((0,)).occurrences_in(o)), list(o.occurrences_in(Perm((0, 2, 1, 3)))), o.contains(Perm((0, 1)))
+    else:
+        list(o), o[:1], o + o, [e for e in o]
 
 
 def tla_value(v):
@@ -131,8 +213,10 @@ def run(ctx):
     edges = r.records
     paths = tour.tours(edges, tour.key({"objs": [], "hseen": [], "pyset": []}), max_path=300)
     names = set()
-    for path in paths:
-        objs, hashes, pyset, pydict, hist = [], {}, set(), {}, []
+    twins = [t for t in (foreign_twin(make(v)) for v in hv) if t is not None]
+    ctx.note("foreign_objects_with_colliding_hash_in_the_containers", len(twins))
+    for pi, path in enumerate(paths):
+        objs, hashes, pyset, pydict, hist = [], {}, set(twins), {t: None for t in twins}, []
         del ALLOC[:]
         for idx in path:
             e = edges[idx]
@@ -144,7 +228,15 @@ def run(ctx):
             ctx.case(("hist", idx), nontrivial=n in ("Hash", "SetLookup") and len(hist) > 3)
             try:
                 if n == "Create":
-                    objs.append(make(hv[i - 1]))
+                    objs.append(make(hv[i - 1], pi + len(hist)))
+                elif n == "Copy":
+                    c = clone(objs[i - 1], pi + len(hist))
+                    if not (c == objs[i - 1]):
+                        ctx.drift("a copy of %r is not equal to it (copying is not part of the property)" % (objs[i - 1],))
+                        c = make(hv[e["to"]["objs"][-1] - 1])
+                    objs.append(c)
+                elif n == "Use":
+                    use(objs[i - 1], objs)
                 elif n == "Hash":
                     h = hash(objs[i - 1])
                     for j in e["obs"]["same"]:
@@ -158,7 +250,7 @@ def run(ctx):
                     pydict[objs[i - 1]] = i
                     hashes.setdefault(i - 1, hash(objs[i - 1]))
                 elif n == "SetLookup":
-                    got = (objs[i - 1] in pyset, pydict.get(objs[i - 1]) is not None, objs[i - 1] in list(pyset))
+                    got = (objs[i - 1] in pyset, pydict.get(objs[i - 1]) is not None, objs[i - 1] in [o for o in pyset if not isinstance(o, tuple) or isinstance(o, (Perm, Basis, MeshBasis))])
                     want = (e["obs"]["flag"],) * 3
                     if got != want:
                         ctx.violation(case, "LookupFindsEqual", want, got)
@@ -168,53 +260,199 @@ def run(ctx):
                 ctx.violation(case, "NoException", "no exception", type(ex).__name__ + ": " + str(ex)[:80])
                 break
         ctx.traces += 1
-    if not {"Create", "Hash", "SetAdd", "SetLookup", "AllocKeep", "AllocFree", "Collect"} <= names:
+    if not {"Create", "Hash", "SetAdd", "SetLookup", "AllocKeep", "AllocFree", "Collect", "Use", "Copy"} <= names:
         raise tlc.MachineryFailure("C08: actions never taken: %s" % names)
     ctx.note("history_edges", len(edges))
     ctx.sample({"machine": "C08_HashOrder", "edge": edges[len(edges) // 2]})
     ctx.exhaustive = True
 
-    # ---- relation table of the value universe -----------------------------------------------------
-    allv = vals + bases
+    # ---- relation tables: the small universe (every ordered pair) and a universe of larger values ------------
+    big, bigbases = big_universe(rnd, quick)
+    tables = [("small universe", vals + bases), ("larger values", big + bigbases)]
+    built = [build_table(ctx, rnd, quick, allv, label) for label, allv in tables]
+    with concurrent.futures.ThreadPoolExecutor(max_workers=2) as ex:
+        outs = list(ex.map(lambda t: judge_table(*t), built))
+    for (label, allv), (events, _), (res, done) in zip(tables, built, outs):
+        ctx.add_tlc(res, "relation table validation (%s)" % label)
+        if len(done) != 1 or done[0]["n"] != len(events):
+            raise tlc.MachineryFailure("Trace_C08: trace not fully consumed\n" + res.stdout[-1500:])
+        ctx.traces += 1
+        ctx.case(n=len(events))
+        for ev in events:
+            if ev["op"] == "Rel" and ev["a"] != ev["b"]:
+                ctx.nontrivial.add(("rel", label, ev["a"], ev["b"]))
+        seen_clauses = set()
+        for b in done[0]["verdict"]:
+            ev = events[b["i"] - 1]
+            desc = {"kind": "pair", "clause": b["clause"], "table": label}
+            if ev["op"] == "Rel":
+                desc.update({"a": tla_value(allv[ev["a"] - 1]), "b": tla_value(allv[ev["b"] - 1]), "observed": ev,
+                             "written": [allv[ev["a"] - 1].get("variant", 0), allv[ev["b"] - 1].get("variant", 0)]})
+            else:
+                desc.update({"event": ev})
+                if "x" in ev:
+                    desc["x"] = tla_value(allv[ev["x"] - 1])
+            if (b["clause"], ev.get("a"), ev.get("b")) in seen_clauses:
+                continue
+            seen_clauses.add((b["clause"], ev.get("a"), ev.get("b")))
+            ctx.violation(desc, b["clause"], "the law named by the clause (see Trace_C08)", ev)
+        ctx.note("values (%s)" % label, len(allv))
+    events = built[0][0]
+    perm_idx = [i + 1 for i, v in enumerate(vals + bases) if v["kind"] == "Perm"]
+    ctx.sample({"machine": "Trace_C08", "events": events[len(perm_idx) + 3: len(perm_idx) + 5]})
+    ctx.rule = ("history machine: transition tour over all (state, action) edges with two live objects of seven kinds, "
+                "environment allocation actions, Use and Copy; relation tables: every ordered pair of the value universe and of "
+                "a universe of larger values written in several container forms (non-trivial = distinct values), sorted() / "
+                "min / max calls, set / dict lookups in mixed containers and re-hashing, judged by Trace_C08")
+    ctx.assumptions.append("allocation histories are those generated by AllocKeep/AllocFree/Collect (tuples, objects, super proxies), not arbitrary allocator states")
+
+
+def big_universe(rnd, quick):
+    """Values beyond the small universe: permutations of length 4-7 (boundary differences: first / last entry, length),
+    mesh-type patterns of length 3-5 with many cells (prefix-related shadings, full grids, bivincular twins written with
+    different subclasses), each written in two container forms; bases with longer elements."""
+    vals = []
+    for n in (4, 5, 6, 7):
+        ident = tuple(range(n))
+        cand = [ident, tuple(reversed(ident)), ident[:-2] + (ident[-1], ident[-2]), (1, 0) + ident[2:], ident[1:] + (0,), (n - 1,) + ident[:-1]]
+        cand += [util.rand_perm(rnd, n) for _ in range(1 if quick else 4)]
+        for p in cand[: (4 if quick and n > 5 else len(cand))]:
+            vals.append(V("Perm", p, variant=rnd.randrange(8)))
+    vals.append(V("Perm", (0, 1, 2, 3), variant=2))
+    vals.append(V("Perm", (0, 1, 2, 3), variant=5))
+    for _ in range(4 if quick else 11):
+        k = rnd.choice([3, 3, 4, 5])
+        p = util.rand_perm(rnd, k)
+        cells = [(x, y) for x in range(k + 1) for y in range(k + 1)]
+        R = sorted(c for c in cells if rnd.random() < rnd.choice([0.5, 0.8]))
+        vals.append(V("MeshPatt", p, R, variant=rnd.randrange(10)))
+        vals.append(V("MeshPatt", p, R, variant=rnd.randrange(10)))          # the same value written differently
+        vals.append(V("MeshPatt", p, R[: len(R) // 2], variant=rnd.randrange(10)))   # sorted shading is a proper prefix
+        vals.append(V("MeshPatt", p, R[1:], variant=rnd.randrange(10)))
+        vals.append(V("MeshPatt", p, cells, variant=rnd.randrange(10)))
+        cols = [x for x in range(k + 1) if rnd.random() < 0.5]
+        rows = [y for y in range(k + 1) if rnd.random() < 0.3]
+        Rb = full(k, cols, rows)
+        vals.append(V("MeshPatt", p, Rb, variant=rnd.randrange(10)))
+        vals.append(V("BivincularPatt", p, Rb, cols, rows, variant=rnd.randrange(7)))
+        vals.append(V("BivincularPatt", p, Rb, cols, rows, variant=rnd.randrange(7)))
+        vals.append(V("VincularPatt", p, full(k, cols, []), cols, [], variant=rnd.randrange(7)))
+        vals.append(V("CovincularPatt", p, full(k, [], rows), [], rows, variant=rnd.randrange(7)))
+        allc = list(range(k + 1))
+        vals.append(V("VincularPatt", p, full(k, allc, []), allc, [], variant=rnd.randrange(7)))       # full grid in three spellings
+        vals.append(V("CovincularPatt", p, full(k, [], allc), [], allc, variant=rnd.randrange(7)))
+        vals.append(V("BivincularPatt", p, full(k, allc, rows), allc, rows, variant=rnd.randrange(7)))
+    e1, e2, e3 = V("Perm", (0, 2, 1, 3)), V("Perm", (3, 2, 1, 0, 4)), V("Perm", (1, 0, 2, 5, 4, 3))
+    m1 = V("MeshPatt", (0, 2, 1), [(0, 0), (1, 1), (3, 3)])
+    m2 = V("VincularPatt", (1, 0, 2), full(3, [1, 2], []), [1, 2], [])
+    m2m = V("MeshPatt", (1, 0, 2), full(3, [1, 2], []))
+    bases = [{"kind": "Basis", "elems": [e1, e2, e3], "variant": 0}, {"kind": "Basis", "elems": [e3, e1, e2], "variant": 1},
+             {"kind": "Basis", "elems": [e2, e3, e1], "variant": 6}, {"kind": "Basis", "elems": [e1, e2], "variant": 2},
+             {"kind": "Basis", "elems": [e1], "variant": 3}, {"kind": "MeshBasis", "elems": [e1], "variant": 0},
+             {"kind": "MeshBasis", "elems": [m1, m2, e2], "variant": 0}, {"kind": "MeshBasis", "elems": [e2, m2m, m1], "variant": 1},
+             {"kind": "MeshBasis", "elems": [m2, m1], "variant": 3}, {"kind": "MeshBasis", "elems": [m1, m2m], "variant": 2}]
+    return vals, bases
+
+
+def build_table(ctx, rnd, quick, allv, label):
     real = [make(v) for v in allv]
     events = []
+    hs = []
+    for a, o in enumerate(real):
+        st, h = util.call(hash, o)
+        if st == "raise":
+            ctx.violation({"kind": "value", "a": tla_value(allv[a]), "written": allv[a].get("variant", 0)}, "NoException", "a hash", h)
+            real[a] = o = make(allv[a], 0)
+            h = hash(o)
+        hs.append(h)
     for a in range(len(allv)):
         for b in range(len(allv)):
             x, y = real[a], real[b]
-            ev = {"op": "Rel", "a": a + 1, "b": b + 1, "eq": bool(x == y), "heq": hash(x) == hash(y)}
-            if (ev["eq"]) != (not (x != y)):
+            st, eq = util.call(lambda: (bool(x == y), bool(x != y)))
+            if st == "raise":
+                ctx.violation({"kind": "pair", "a": tla_value(allv[a]), "b": tla_value(allv[b])}, "NoException", "== and != return booleans", eq)
+                eq = (False, True)
+            ev = {"op": "Rel", "a": a + 1, "b": b + 1, "eq": eq[0], "heq": hs[a] == hs[b]}
+            if eq[0] == eq[1]:
                 ctx.violation({"kind": "pair", "a": tla_value(allv[a]), "b": tla_value(allv[b])}, "EqNeConsistent", "== and != complementary", "both/neither")
             comparable = (allv[a]["kind"] == "Perm" and allv[b]["kind"] == "Perm") or (allv[a]["kind"] in MESH_KINDS and allv[b]["kind"] in MESH_KINDS)
             if comparable:
                 try:
                     ev.update({"defined": True, "lt": bool(x < y), "le": bool(x <= y), "gt": bool(x > y), "ge": bool(x >= y)})
-                except TypeError:
+                except Exception:  # pylint: disable=broad-except
                     ev.update({"defined": False, "lt": False, "le": False, "gt": False, "ge": False})
             else:
                 ev.update({"defined": False, "lt": False, "le": False, "gt": False, "ge": False})
             events.append(ev)
-    # a>b iff b<a needs both directions: encode gt of (a,b) as lt of (b,a) in the table check
-    for ev in list(events):
-        pass
     events.append({"op": "Close", "a": 0, "b": 0})
+    # == / != against objects that are not patterns: the property promises nothing about them; an exception is drift
+    for o in real:
+        for f in (5, None, "01", object(), frozenset(), [0, 1]):
+            st, got = util.call(lambda: (o == f, o != f, f == o))
+            if st == "raise":
+                ctx.drift("comparing %r with the non-pattern object %r by == raises %s" % (o, f, got))
+                break
     perm_idx = [i + 1 for i, v in enumerate(allv) if v["kind"] == "Perm"]
     mesh_idx = [i + 1 for i, v in enumerate(allv) if v["kind"] in MESH_KINDS]
+
+    def back(inp, out_objs):
+        idmap = {}
+        for i in inp:
+            idmap.setdefault(id(real[i - 1]), i)
+        return [idmap[id(o)] for o in out_objs]
     for pool in (perm_idx, mesh_idx):
-        for _ in range(6 if quick else 40):
+        for it in range(8 if quick else 40):
             inp = [rnd.choice(pool) for _ in range(rnd.randint(3, 12))]
+            rev = it % 4 == 3
             try:
-                out_objs = sorted(real[i - 1] for i in inp)
-                # map back by identity of the object list
-                idmap = {}
-                for i in inp:
-                    idmap.setdefault(id(real[i - 1]), i)
-                out = [idmap[id(o)] for o in out_objs]
+                if it % 2 == 0:
+                    out = back(inp, sorted((real[i - 1] for i in inp), reverse=rev))
+                else:
+                    lst = [real[i - 1] for i in inp]
+                    lst.sort(reverse=rev)
+                    out = back(inp, lst)
             except TypeError:
                 out = []
-            events.append({"op": "Sorted", "inp": inp, "out": out})
+            events.append({"op": "Sorted", "inp": inp, "out": out, "rev": rev})
+            for which, f in (("min", min), ("max", max)):
+                try:
+                    o = back(inp, [f(real[i - 1] for i in inp)])[0]
+                except TypeError:
+                    o = 0
+                events.append({"op": "Extreme", "inp": inp, "which": which, "out": o})
+    # one big set and dict holding a mixture of all kinds (and, where known, non-pattern objects with colliding hashes)
+    order = list(range(1, len(allv) + 1))
+    for it in range(3 if quick else 10):
+        rnd.shuffle(order)
+        present = order[: len(order) // 2]
+        st, dct = {o for o in map(foreign_twin, real) if o is not None}, {}
+        for o in list(st):
+            dct[o] = 0
+        nforeign = len(st)
+        for i in present:
+            st.add(real[i - 1])
+            dct.setdefault(real[i - 1], i)
+        events.append({"op": "Distinct", "inp": present, "n": len(st) - nforeign})
+        events.append({"op": "Distinct", "inp": present, "n": len(dct) - nforeign})
+        fz = frozenset(real[i - 1] for i in present)
+        for x in order[:: (3 if quick else 1)]:
+            events.append({"op": "Lookup", "present": present, "x": x, "found": real[x - 1] in st})
+            events.append({"op": "Lookup", "present": present, "x": x, "found": dct.get(real[x - 1], 0) > 0})
+            events.append({"op": "Lookup", "present": present, "x": x, "found": make(allv[x - 1], it + x) in fz})
+    # hashes once more after all of the above (and an allocation round)
+    first = [hash(o) for o in real]
+    env("AllocKeep", real)
+    env("AllocFree", real)
+    env("Collect", real)
+    for a, o in enumerate(real):
+        use(o, real[a + 1: a + 2])
+        events.append({"op": "Rehash", "a": a + 1, "same": hash(o) == first[a] and hash(make(allv[a], a)) == first[a]})
+    del ALLOC[:]
+    return events, allv
+
+
+def judge_table(events, allv):
     mod = util.mc_module("MC_T08", "Trace_C08", {"TValuesDef": "<< " + ", ".join(tla_value(v) for v in allv) + " >>"})
-    import os
-    import tempfile
     fd, path = tempfile.mkstemp(prefix="verif-trace-", suffix=".json")
     try:
         with os.fdopen(fd, "w") as fh:
@@ -223,33 +461,7 @@ def run(ctx):
         res = tlc.run_tlc("MC_T08", c, workers=1, timeout=3000, env={"TRACE_FILE": path}, files={"MC_T08.tla": mod}, full_jit=True)
     finally:
         os.unlink(path)
-    ctx.add_tlc(res, "relation table validation")
-    done = [x for x in res.records if "verdict" in x]
-    if len(done) != 1 or done[0]["n"] != len(events):
-        raise tlc.MachineryFailure("Trace_C08: trace not fully consumed\n" + res.stdout[-1500:])
-    ctx.traces += 1
-    ctx.case(n=len(events))
-    for ev in events:
-        if ev["op"] == "Rel" and ev["a"] != ev["b"]:
-            ctx.nontrivial.add(("rel", ev["a"], ev["b"]))
-    seen_clauses = set()
-    for b in done[0]["verdict"]:
-        ev = events[b["i"] - 1]
-        desc = {"kind": "pair", "clause": b["clause"]}
-        if ev["op"] == "Rel":
-            desc.update({"a": tla_value(allv[ev["a"] - 1]), "b": tla_value(allv[ev["b"] - 1]), "observed": ev})
-        else:
-            desc.update({"event": ev})
-        if (b["clause"], ev.get("a"), ev.get("b")) in seen_clauses:
-            continue
-        seen_clauses.add((b["clause"], ev.get("a"), ev.get("b")))
-        ctx.violation(desc, b["clause"], "the law named by the clause (see Trace_C08)", ev)
-    ctx.note("values", len(allv))
-    ctx.sample({"machine": "Trace_C08", "events": events[len(perm_idx) + 3: len(perm_idx) + 5]})
-    ctx.rule = ("history machine: transition tour over all (state, action) edges with two live objects of seven kinds and "
-                "environment allocation actions; relation table: every ordered pair of the value universe (non-trivial = "
-                "distinct values) and sorted() calls judged by Trace_C08")
-    ctx.assumptions.append("allocation histories are those generated by AllocKeep/AllocFree/Collect (tuples, objects, super proxies), not arbitrary allocator states")
+    return res, [x for x in res.records if "verdict" in x]
 
 
 def replay(ctx, path):
